@@ -64,6 +64,13 @@ class watchdog(object):
 
     def __enter__(self):
         def handler(signum, frame):
+            # an exception raised inside a gc callback or a destructor is swallowed (and printed):
+            # wait for the next tick of the interval timer instead
+            f, depth = frame, 0
+            while f is not None and depth < 4:
+                if f.f_code.co_name in ("gc_callback", "__del__"):
+                    return
+                f, depth = f.f_back, depth + 1
             raise NotFinished()
 
         self.old = signal.signal(signal.SIGALRM, handler)
@@ -618,7 +625,7 @@ def check_score(o, spec, sr, p2, sfx):
         o.add("key-signatures-differ", got=[(str(a), b, c) for a, b, c in got_ks], expected=[(str(a), b, c) for a, b, c in exp_ks],
               got_divs=[int(x.start.t) for x in p2.iter_all(S.KeySignature)], loaded_divs=d2, timing_ok=not timing_bad,
               written_measure_numbers=[(0 if sr.pickup else 1) + sr.bar_of(k[0]) for k in ps.get("keysigs", [])],
-              one_division_early=_one_div_early(got_ks, exp_ks, d2))
+              one_division_early=_one_div_early(got_ks, exp_ks, d2), values_match=[g[1:] for g in got_ks] == [e[1:] for e in exp_ks])
 
 
 def _one_div_early(got, exp, d2):
@@ -678,7 +685,7 @@ def _k_keysig_at_measure_number(spec, disc):
     if disc.kind != "key-signatures-differ":
         return False
     d = disc["detail"]
-    return bool(d.get("got_divs")) and set(d["got_divs"]) <= set(d.get("written_measure_numbers", []))
+    return bool(d.get("got_divs")) and bool(d.get("values_match")) and set(d["got_divs"]) <= set(d.get("written_measure_numbers", []))
 
 
 def _k_ornament_notes(spec, disc):
@@ -729,3 +736,406 @@ SUBCHECKS = [
         floors={"has-ornament": 0.1, "pedal": 0.15, "pickup": 0.08, "non-quarter-beat": 0.15, "grace": 0.05, "tie-chain": 0.1, "assume-unfolded-false": 0.15},
     ),
 ]
+
+
+# ----------------------------------------------------------------------------------------------
+# sub-check 2: the fixture files of the test-suite, read by an independent line reader
+# ----------------------------------------------------------------------------------------------
+FIXTURE_DIR = os.path.join(os.environ.get("VERIF_REPO", "/repo"), "tests", "data", "match")
+_STEP_PC = {"C": 0, "D": 2, "E": 4, "F": 5, "G": 7, "A": 9, "B": 11}
+_ALTER = {"n": 0, "#": 1, "b": -1, "##": 2, "x": 2, "bb": -2, "###": 3, "bbb": -3}
+
+
+def _split_args(s):
+    """Split 'a,[b,c],d' at top-level commas."""
+    out, depth, cur = [], 0, ""
+    for ch in s:
+        if ch == "[":
+            depth += 1
+        elif ch == "]":
+            depth -= 1
+        if ch == "," and depth == 0:
+            out.append(cur)
+            cur = ""
+        else:
+            cur += ch
+    out.append(cur)
+    return [x.strip() for x in out]
+
+
+_NOTE_RE = re.compile(r"note\((.*)\)\.\s*$")
+_SNOTE_RE = re.compile(r"^snote\((.*?)\)-(note\(.*\)\.|deletion\.|trailing_score_note\.|no_played_note\.)\s*$")
+_PEDAL_RE = re.compile(r"^(sustain|soft)\(\s*(-?[0-9.]+)\s*,\s*(-?[0-9.]+)\s*\)\.\s*$")
+_INFO_RE = re.compile(r"^info\(([^,]+),(.*)\)\.\s*$")
+
+
+def _parse_note(text):
+    m = _NOTE_RE.search(text)
+    if not m:
+        return None
+    a = _split_args(m.group(1))
+    if len(a) == 7 and "[" not in m.group(1):  # 1.0.0: id, pitch, onset, offset, velocity, channel, track
+        return {"id": a[0], "pitch": int(a[1]), "on": float(a[2]), "off": float(a[3]), "vel": int(a[4])}
+    if len(a) in (6, 7) and a[1].startswith("["):  # old: id, [name, mod], octave, onset, offset, (adjusted offset,) velocity
+        name, mod = [x.strip() for x in a[1].strip("[]").split(",")]
+        pitch = 12 * (int(a[2]) + 1) + _STEP_PC[name.upper()] + _ALTER[mod]
+        return {"id": a[0], "pitch": pitch, "on": float(a[3]), "off": float(a[4]), "vel": int(float(a[-1]))}
+    return None
+
+
+def read_match_lines(text):
+    """Independent reader: (info dict, [entries], n_unknown) with entries in file order, identical lines once."""
+    info, entries, seen, unknown = {}, [], set(), 0
+    for raw in text.splitlines():
+        line = raw.strip()
+        if not line or line in seen:
+            continue
+        seen.add(line)
+        m = _INFO_RE.match(line)
+        if m:
+            info.setdefault(m.group(1), m.group(2))
+            continue
+        m = _PEDAL_RE.match(line)
+        if m:
+            entries.append({"kind": m.group(1), "time": float(m.group(2)), "value": float(m.group(3))})
+            continue
+        m = _SNOTE_RE.match(line)
+        if m:
+            a = _split_args(m.group(1))
+            sn = {"anchor": a[0], "name": a[1].strip("[]").split(",")[0].strip(), "attrs": [x.strip() for x in a[-1].strip("[]").split(",") if x.strip()]}
+            tail = m.group(2)
+            if tail.startswith("note("):
+                n = _parse_note(tail)
+                if n is None:
+                    unknown += 1
+                    continue
+                entries.append({"kind": "match", "snote": sn, "note": n})
+            elif tail.startswith("deletion"):
+                entries.append({"kind": "deletion", "snote": sn})
+            else:
+                entries.append({"kind": "other-snote", "snote": sn})
+            continue
+        if line.startswith("insertion-note("):
+            n = _parse_note(line)
+            if n is None:
+                unknown += 1
+            else:
+                entries.append({"kind": "insertion", "note": n})
+            continue
+        m = re.match(r"^(ornament|trill)\(([^,)]*)(?:,\[(.*?)\])?\)-(note\(.*\)\.)\s*$", line)
+        if m:
+            n = _parse_note(m.group(4))
+            entries.append({"kind": "ornament", "anchor": m.group(2), "types": m.group(3), "old": m.group(1) == "trill", "note": n})
+            continue
+        if re.match(r"^(hammer_bounce|trailing_played_note)-note\(", line):
+            entries.append({"kind": "other-note", "note": _parse_note(line)})
+            continue
+        if re.match(r"^(scoreprop|meta|section|stime|ptime)\(", line):
+            continue
+        unknown += 1
+    return info, entries, unknown
+
+
+def resolve_duplicates(entries):
+    """validate_match_ids as documented: deletions whose score id occurs in several lines are dropped,
+    insertions whose performed id occurs in several lines are dropped, matches are kept."""
+    sid = Counter(e["snote"]["anchor"] for e in entries if e["kind"] in ("match", "deletion", "other-snote"))
+    out = [e for e in entries if not (e["kind"] == "deletion" and sid[e["snote"]["anchor"]] > 1)]
+    pid = Counter(e["note"]["id"] for e in out if e["kind"] in ("match", "insertion"))
+    out = [e for e in out if not (e["kind"] == "insertion" and pid[e["note"]["id"]] > 1)]
+    return out
+
+
+def expected_alignment(entries):
+    exp = Counter()
+    for e in entries:
+        if e["kind"] == "match":
+            exp[("match", e["snote"]["anchor"], pid_out(e["note"]["id"]), None)] += 1
+        elif e["kind"] == "deletion":
+            if "leftOutTied" not in e["snote"]["attrs"]:
+                exp[("deletion", e["snote"]["anchor"], None, None)] += 1
+        elif e["kind"] == "insertion":
+            exp[("insertion", None, pid_out(e["note"]["id"]), None)] += 1
+    return exp
+
+
+def compare_loaded(o, entries, info, perf, al2, first_note_at_zero=False, judge_ornaments=False):
+    """Compare what load_match returned with the resolved entries of the independent reader."""
+    exp_al = expected_alignment(entries)
+    got_al = Counter(al_key(a) for a in al2 if a.get("label") != "ornament")
+    if got_al != exp_al:
+        missing = sorted((exp_al - got_al).elements(), key=repr)
+        extra = sorted((got_al - exp_al).elements(), key=repr)
+        kind = "alignment-differs"
+        if missing and all(k[0] == "deletion" for k in missing) and not extra:
+            kind = "deletion-lost"
+        elif missing and all(k[0] == "insertion" for k in missing) and not extra:
+            kind = "insertion-lost"
+        elif extra and all(k[0] == "deletion" for k in extra) and not missing:
+            kind = "conflicting-deletion-kept"
+        elif extra and all(k[0] == "insertion" for k in extra) and not missing:
+            kind = "conflicting-insertion-kept"
+        o.add(kind, missing=missing[:4], extra=extra[:4], n_missing=len(missing), n_extra=len(extra))
+    pps = list(perf.performedparts)
+    if len(pps) != 1:
+        o.add("performance-part-count", n=len(pps))
+        return
+    pp = pps[0]
+    exp_notes = [e["note"] for e in entries if e["kind"] in ("match", "insertion")]
+    exp_ids = Counter(pid_out(n["id"]) for n in exp_notes)
+    got_ids = Counter(n["id"] for n in pp.notes)
+    if got_ids != exp_ids:
+        o.add("performed-note-count-differs", n_lines=sum(exp_ids.values()), n_loaded=sum(got_ids.values()),
+              missing=sorted((exp_ids - got_ids).elements())[:5], extra=sorted((got_ids - exp_ids).elements())[:5])
+        return
+    try:
+        ppq, mpq = int(info["midiClockUnits"]), int(info["midiClockRate"])
+    except (KeyError, ValueError):
+        o.excluded.append("file-without-clock-info")
+        return
+    if (getattr(pp, "ppq", None), getattr(pp, "mpq", None)) != (ppq, mpq):
+        o.add("loaded-performed-part-clock-differs", got=[getattr(pp, "ppq", None), getattr(pp, "mpq", None)], expected=[ppq, mpq])
+    shift = 0.0
+    if first_note_at_zero and exp_notes:
+        shift = min(n["on"] for n in exp_notes)
+    by = {}
+    for n in exp_notes:
+        by.setdefault(pid_out(n["id"]), []).append(n)
+    for g in pp.notes:
+        cands = by[g["id"]]
+        ok = False
+        for n in cands:
+            es_on = (n["on"] - shift) * mpq / (1e6 * ppq)
+            es_off = (n["off"] - shift) * mpq / (1e6 * ppq)
+            if (int(g["midi_pitch"]) == n["pitch"] and int(g["velocity"]) == n["vel"] and g["note_on_tick"] == n["on"] - shift and g["note_off_tick"] == n["off"] - shift
+                    and abs(g["note_on"] - es_on) <= 1e-9 * (1 + abs(es_on)) and abs(g["note_off"] - es_off) <= 1e-9 * (1 + abs(es_off))):
+                ok = True
+        if not ok:
+            o.add("performed-note-fields-differ", id=g["id"], got=[int(g["midi_pitch"]), g["note_on_tick"], g["note_off_tick"], int(g["velocity"]), g["note_on"], g["note_off"]],
+                  line=cands[0], ppq=ppq, mpq=mpq, shift=shift)
+            break
+    for kind, number in (("sustain", 64), ("soft", 67)):
+        e = sorted((x["time"], x["value"]) for x in entries if x["kind"] == kind)
+        g = sorted((round(c["time"] * 1e6 * ppq / mpq, 6), float(c["value"])) for c in pp.controls if c["number"] == number)
+        if len(e) != len(g) or any(abs(a[0] - b[0]) > 1e-4 or a[1] != b[1] for a, b in zip(e, g)):
+            o.add("pedal-lines-differ", kind=kind, n_lines=len(e), n_loaded=len(g))
+
+
+def _k_clock_detail(spec, disc):
+    d = disc["detail"]
+    return disc.kind == "loaded-performed-part-clock-differs" and d.get("got") == [480, 500000] and d.get("expected") != [480, 500000]
+
+
+def fixture_enum(tier):
+    files = sorted(f for f in os.listdir(FIXTURE_DIR) if f.endswith(".match")) if os.path.isdir(FIXTURE_DIR) else []
+    out = []
+    for f in files:
+        for cs in (False, True):
+            for z in (False, True):
+                out.append({"file": f, "create_score": cs, "first_note_at_zero": z})
+    return out
+
+
+def fixture_oracle(spec):
+    o = Outcome()
+    path = os.path.join(FIXTURE_DIR, spec["file"])
+    text = open(path, encoding="utf-8").read()
+    info, raw_entries, unknown = read_match_lines(text)
+    entries = resolve_duplicates(raw_entries)
+    kinds = Counter(e["kind"] for e in raw_entries)
+    version = info.get("matchFileVersion", "none")
+    o.cls("version-" + version)
+    o.cls("file-with-conflicting-lines", len(entries) != len(raw_entries))
+    o.cls("file-with-unreadable-line", unknown > 0)
+    o.cls("file-with-repeated-identical-lines", len(set(l.strip() for l in text.splitlines() if l.strip())) < len([l for l in text.splitlines() if l.strip()]))
+    o.cls("create-score", spec["create_score"])
+    o.nontrivial = kinds["match"] > 0
+    if kinds["other-note"] or kinds["other-snote"]:
+        o.excluded.append("line-kinds-outside-the-stated-resolution-rule")
+    res = guarded(load_match, path, create_score=spec["create_score"], first_note_at_zero=spec["first_note_at_zero"], _watchdog=120)
+    perf, al2 = res[0], res[1]
+    compare_loaded(o, entries, info, perf, al2, first_note_at_zero=spec["first_note_at_zero"])
+    got_orn = Counter((a["score_id"], a["performance_id"]) for a in al2 if a.get("label") == "ornament")
+    exp_orn = Counter((e["anchor"], pid_out(e["note"]["id"])) for e in entries if e["kind"] == "ornament")
+    if got_orn != exp_orn:
+        o.add("ornament-entries-differ", n_lines=sum(exp_orn.values()), n_loaded=sum(got_orn.values()))
+    if spec["create_score"]:
+        parts = list(res[2].parts)
+        if len(parts) != 1:
+            o.add("score-part-count", n=len(parts))
+            return o
+        exp_ids = sorted(set(e["snote"]["anchor"] for e in entries if e["kind"] in ("match", "deletion") and e["snote"]["name"].lower() != "r"))
+        got_ids = sorted(n.id for n in parts[0].notes_tied)
+        if got_ids != exp_ids:
+            o.add("score-note-ids-differ", n_expected=len(exp_ids), n_loaded=len(got_ids), missing=sorted(set(exp_ids) - set(got_ids))[:5],
+                  extra=sorted(set(got_ids) - set(exp_ids))[:5], duplicated=[k for k, v in Counter(got_ids).items() if v > 1][:5])
+    return o
+
+
+SUBCHECKS.append(
+    SubCheck(
+        "fixtures",
+        fixture_oracle,
+        enumerate=fixture_enum,
+        shards=4,
+        rule="every *.match file under tests/data/match (formats 1.0.0 and 0.4.0) x create_score x first_note_at_zero is loaded; note-bearing lines are counted and read by an independent regular-expression reader, duplicate ids resolved as validate_match_ids documents; loading must not raise; non-trivial = the file has matched notes",
+        known={"loaded-performed-part-clock": _k_clock_detail},
+    )
+)
+
+
+# ----------------------------------------------------------------------------------------------
+# sub-check 3: files with repeated and conflicting note lines (own writer, own reader)
+# ----------------------------------------------------------------------------------------------
+_PITCHES = [("C", 0), ("D", 2), ("E", 4), ("F", 5), ("G", 7), ("A", 9), ("B", 11)]
+
+
+@st.composite
+def dup_case(draw, tier="quick"):
+    """Abstract lines of a small 4/4 piece with duplicate / conflicting note lines, in file order."""
+    k = draw(st.integers(1, 6 if tier == "quick" else 12))
+    fmt = draw(st.sampled_from(["1.0.0", "1.0.0", "0.5.0"]))
+    lines = []
+    pcount = [0]
+
+    def pid():
+        pcount[0] += 1
+        return ("n%d" if fmt == "1.0.0" else "%d") % pcount[0]
+
+    def pnote(p=None):
+        on = draw(st.integers(0, 5000))
+        return {"id": p or pid(), "step": draw(st.integers(0, 6)), "on": on, "off": on + draw(st.integers(0, 500)), "vel": draw(st.integers(1, 127))}
+
+    def snote(i, attr=None):
+        return {"anchor": ("n%d" if fmt == "1.0.0" else "%d") % (100 + i), "pos": i, "step": i % 7, "attr": attr}
+
+    for i in range(k):
+        mode = draw(st.sampled_from(["match", "match", "match", "deletion", "match+deletion", "match+deletions", "deletions", "match+insertion",
+                                     "match+insertions", "match-repeated", "deletion-repeated", "two-matches-one-score-id", "two-matches-one-performed-id"]))
+        if mode.startswith("match"):
+            n = pnote()
+            lines.append({"kind": "match", "snote": snote(i), "note": n})
+            if mode == "match+deletion":
+                lines.append({"kind": "deletion", "snote": snote(i)})
+            elif mode == "match+deletions":
+                lines.append({"kind": "deletion", "snote": snote(i)})
+                lines.append({"kind": "deletion", "snote": snote(i, "accent")})
+            elif mode == "match+insertion":
+                lines.append({"kind": "insertion", "note": dict(n)})
+            elif mode == "match+insertions":
+                lines.append({"kind": "insertion", "note": dict(n)})
+                lines.append({"kind": "insertion", "note": dict(n, vel=(n["vel"] % 127) + 1)})
+            elif mode == "match-repeated":
+                lines.append(dict(lines[-1]))
+        elif mode == "deletion":
+            lines.append({"kind": "deletion", "snote": snote(i)})
+        elif mode == "deletions":
+            lines.append({"kind": "deletion", "snote": snote(i)})
+            lines.append({"kind": "deletion", "snote": snote(i, "staccato")})
+        elif mode == "deletion-repeated":
+            lines.append({"kind": "deletion", "snote": snote(i)})
+            lines.append({"kind": "deletion", "snote": snote(i)})
+        elif mode == "two-matches-one-score-id":
+            lines.append({"kind": "match", "snote": snote(i), "note": pnote()})
+            lines.append({"kind": "match", "snote": snote(i), "note": pnote()})
+        elif mode == "two-matches-one-performed-id":
+            n = pnote()
+            lines.append({"kind": "match", "snote": snote(i), "note": n})
+            lines.append({"kind": "match", "snote": snote(i + 50), "note": dict(n)})
+    for _ in range(draw(st.sampled_from([0, 0, 1, 2]))):
+        mode = draw(st.sampled_from(["insertion", "insertions", "insertion-repeated"]))
+        n = pnote()
+        lines.append({"kind": "insertion", "note": n})
+        if mode == "insertions":
+            lines.append({"kind": "insertion", "note": dict(n, on=n["on"] + 1, off=n["off"] + 1)})
+        elif mode == "insertion-repeated":
+            lines.append({"kind": "insertion", "note": dict(n)})
+    for _ in range(draw(st.sampled_from([0, 0, 1, 3]))):
+        lines.append({"kind": draw(st.sampled_from(["sustain", "soft"])), "time": draw(st.integers(0, 5000)), "value": draw(st.sampled_from([0, 127, 64]))})
+    lines = list(draw(st.permutations(lines)))
+    return {"fmt": fmt, "ppq": draw(st.sampled_from([480, 96, 1000])), "mpq": draw(st.sampled_from([500000, 600000])), "lines": lines,
+            "first_note_at_zero": draw(st.booleans())}
+
+
+def write_dup_file(spec):
+    v1 = spec["fmt"] == "1.0.0"
+    out = ["info(matchFileVersion,%s)." % ("1.0.0" if v1 else "5.0"), "info(midiClockUnits,%d)." % spec["ppq"], "info(midiClockRate,%d)." % spec["mpq"]]
+    if v1:
+        out += ["scoreprop(keySignature,C,1:1,0,0.0000).", "scoreprop(timeSignature,4/4,1:1,0,0.0000)."]
+    else:
+        out += ["info(keySignature,[C Maj]).", "info(timeSignature,[4/4])."]
+
+    def sn(x):
+        pos = x["pos"] % 50
+        name = _PITCHES[x["step"]][0]
+        attrs = (["v1", "staff1"] if v1 else ["s"]) + ([x["attr"]] if x.get("attr") else [])
+        on = float(pos)
+        return "snote(%s,[%s,n],4,%d:%d,0,1/4,%s,%s,[%s])" % (x["anchor"], name, pos // 4 + 1, pos % 4 + 1,
+                                                             ("%.4f" % on) if v1 else ("%.1f" % on), ("%.4f" % (on + 1)) if v1 else ("%.1f" % (on + 1)), ",".join(attrs))
+
+    def pn(x):
+        name, pc = _PITCHES[x["step"]]
+        if v1:
+            return "note(%s,%d,%d,%d,%d,1,0)." % (x["id"], 60 + pc, x["on"], x["off"], x["vel"])
+        return "note(%s,[%s,n],4,%d,%d,%d,%d)." % (x["id"], name, x["on"], x["off"], x["off"], x["vel"])
+
+    for l in spec["lines"]:
+        if l["kind"] == "match":
+            out.append(sn(l["snote"]) + "-" + pn(l["note"]))
+        elif l["kind"] == "deletion":
+            out.append(sn(l["snote"]) + "-deletion.")
+        elif l["kind"] == "insertion":
+            out.append("insertion-" + pn(l["note"]))
+        else:
+            out.append("%s(%d,%d)." % (l["kind"], l["time"], l["value"]))
+    return "\n".join(out) + "\n"
+
+
+def dup_oracle(spec):
+    o = Outcome()
+    text = write_dup_file(spec)
+    info, raw_entries, unknown = read_match_lines(text)
+    if unknown:
+        raise RuntimeError("own reader cannot read own writer's file")
+    entries = resolve_duplicates(raw_entries)
+    nonblank = [l for l in text.splitlines() if l.strip()]
+    sid = Counter(e["snote"]["anchor"] for e in raw_entries if e["kind"] in ("match", "deletion"))
+    pidc = Counter(e["note"]["id"] for e in raw_entries if e["kind"] in ("match", "insertion"))
+    multi_match = any(v > 1 for v in Counter(e["snote"]["anchor"] for e in raw_entries if e["kind"] == "match").values()) or any(
+        v > 1 for v in Counter(e["note"]["id"] for e in raw_entries if e["kind"] == "match").values())
+    o.cls("repeated-identical-line", len(set(nonblank)) < len(nonblank))
+    o.cls("deletion-conflicts-with-match", any(e["kind"] == "deletion" and any(x["kind"] == "match" and x["snote"]["anchor"] == e["snote"]["anchor"] for x in raw_entries) for e in raw_entries))
+    o.cls("insertion-conflicts-with-match", any(e["kind"] == "insertion" and any(x["kind"] == "match" and x["note"]["id"] == e["note"]["id"] for x in raw_entries) for e in raw_entries))
+    o.cls("several-deletions-one-id", any(v > 1 for v in Counter(e["snote"]["anchor"] for e in raw_entries if e["kind"] == "deletion").values()))
+    o.cls("several-insertions-one-id", any(v > 1 for v in Counter(e["note"]["id"] for e in raw_entries if e["kind"] == "insertion").values()))
+    o.cls("several-matches-one-id", multi_match)
+    o.cls("format-" + spec["fmt"])
+    o.nontrivial = len(entries) != len(raw_entries) or len(set(nonblank)) < len(nonblank)
+    if not any(e["kind"] in ("match", "insertion") for e in entries):
+        o.cls("no-performed-note")
+    with tempfile.TemporaryDirectory() as tmp:
+        path = os.path.join(tmp, "dup.match")
+        with open(path, "w") as f:
+            f.write(text)
+        perf, al2 = guarded(load_match, path, create_score=False, first_note_at_zero=spec["first_note_at_zero"])
+        compare_loaded(o, entries, info, perf, al2, first_note_at_zero=spec["first_note_at_zero"])
+        if not multi_match and any(e["kind"] in ("match", "deletion") for e in entries):
+            res = guarded(load_match, path, create_score=True)
+            exp_ids = sorted(set(e["snote"]["anchor"] for e in entries if e["kind"] in ("match", "deletion")))
+            got_ids = sorted(n.id for n in res[2].parts[0].notes_tied)
+            if got_ids != exp_ids:
+                o.add("score-note-ids-differ", expected=exp_ids[:8], got=got_ids[:8])
+    return o
+
+
+SUBCHECKS.append(
+    SubCheck(
+        "duplicates",
+        dup_oracle,
+        strategy=lambda tier: dup_case(tier),
+        budget={"quick": 25, "thorough": 600},
+        rule="small files (formats 1.0.0 and 0.5.0) written by the harness with repeated identical lines, deletions/insertions that conflict with a match, several deletions/insertions with one id, several matches with one id; loaded alignment and performed notes compared with the documented resolution computed by an independent reader; non-trivial = at least one line is dropped by the resolution rules",
+        known={"loaded-performed-part-clock": _k_clock_detail},
+        floors={"deletion-conflicts-with-match": 0.1, "insertion-conflicts-with-match": 0.1, "repeated-identical-line": 0.1},
+    )
+)
